@@ -37,7 +37,7 @@ PROPS = ["Nstd.Rc.Props"]
 DRIVER = "drv_rc"
 LEAN_TARGETS = PROPS + [DRIVER]
 SOURCES = ["rc.cpp", C.REPO / "src/String.cpp", C.REPO / "src/Variant.cpp", C.REPO / "src/Memory.cpp"]
-MAXLEN = 14          # payload strings stay short: the ledger recognises payload blocks of Variant / Xml::Variant by size
+MAXLEN = 11          # payload strings stay short: the ledger recognises payload blocks of Variant / Xml::Variant by size
 
 
 def hexs(bs):
@@ -55,8 +55,27 @@ class Ref:
         self.V = [("n",)] * 4
         self.X = [("n",)] * 4
         self.P = [None] * 4
-        self.objs = {}
+        self.objs = {}          # id -> [val, next id or None, number of handles, alive]
         self.nobj = 0
+
+    # reference counting on the object graph (cycles stay alive: that is what counted handles mean)
+    def _acq(self, o):
+        if o is not None:
+            self.objs[o][2] += 1
+
+    def _rel(self, o):
+        while o is not None:
+            ob = self.objs[o]
+            ob[2] -= 1
+            if ob[2] > 0:
+                return
+            ob[3] = False
+            o, ob[1] = ob[1], None
+
+    def _set(self, d, o):
+        self._acq(o)
+        self._rel(self.P[d])
+        self.P[d] = o
 
     def apply(self, t):
         op = t[0]
@@ -64,6 +83,15 @@ class Ref:
         a = t[2] if len(t) > 2 else None
         S, V, X, P = self.S, self.V, self.X, self.P
         if op in ("snew", "slit", "sset"): S[d] = unhex(a)
+        elif op == "sprepend": S[d] = unhex(a) + S[d]
+        elif op == "sresize":
+            if int(a) > len(S[d]):
+                return False
+            S[d] = S[d][:int(a)]
+        elif op == "sreplace": S[d] = [int(t[3]) if c == int(a) else c for c in S[d]]
+        elif op == "slower": S[d] = [c + 32 if 65 <= c <= 90 else c for c in S[d]]
+        elif op == "schar": pass
+        elif op == "sprintf": S[d] = list(str(int(a)).encode())
         elif op in ("scopy", "sassign"): S[d] = list(S[int(a)])
         elif op in ("sclear", "sdel"): S[d] = []
         elif op == "sappend": S[d] = S[d] + unhex(a)
@@ -80,6 +108,21 @@ class Ref:
             v = V[d]
             V[d] = ("l", (v[1] if v[0] == "l" else ()) + (int(a),))
         elif op == "vsetl": V[d] = ("l", (int(a),))
+        elif op == "vpusha":
+            v = V[d]
+            V[d] = ("a", (v[1] if v[0] == "a" else ()) + (int(a),))
+        elif op == "vseta": V[d] = ("a", (int(a),))
+        elif op in ("vputm", "vsetm"):
+            v = V[d]
+            cur = list(v[1]) if v[0] == "m" and op == "vputm" else []
+            k, x = int(a), int(t[3])
+            for i in range(0, len(cur), 2):
+                if cur[i] == k:
+                    cur[i + 1] = x
+                    break
+            else:
+                cur += [k, x]
+            V[d] = ("m", tuple(cur))
         elif op == "vswap": V[d], V[int(a)] = V[int(a)], V[d]
         elif op in ("xcopy", "xassign"): X[d] = X[int(a)]
         elif op == "xclear": X[d] = ("n",)
@@ -87,17 +130,42 @@ class Ref:
         elif op == "xelem": X[d] = ("e", tuple(unhex(a)))
         elif op == "pnew":
             self.nobj += 1
-            self.objs[self.nobj] = int(a)
-            P[d] = self.nobj
-        elif op in ("pcopy", "passign"): P[d] = P[int(a)]
-        elif op == "pclear": P[d] = None
-        elif op == "pswap": P[d], P[int(a)] = P[int(a)], P[d]
+            self.objs[self.nobj] = [int(a), None, 0, True]
+            self._set(d, self.nobj)
+        elif op in ("pcopy", "passign", "praw", "pctor"):
+            if d >= 2 and int(a) < 2:
+                return False
+            self._set(d, P[int(a)])
+        elif op == "pclear": self._set(d, None)
+        elif op == "pswap":
+            if (d < 2) != (int(a) < 2):
+                return False
+            P[d], P[int(a)] = P[int(a)], P[d]
+        elif op == "plink":
+            if P[d] is None:
+                return False
+            o, new = self.objs[P[d]], P[int(a)]
+            self._acq(new)
+            old, o[1] = o[1], new
+            self._rel(old)
+        elif op == "pnext":
+            if d >= 2 or P[d] is None:
+                return False
+            self._set(d, self.objs[P[d]][1])
+        elif op == "pnextof":
+            if d >= 2 or P[int(a)] is None:
+                return False
+            self._set(d, self.objs[P[int(a)]][1])
         else:
             return False
         return True
 
     def clear_all(self):
+        for d in range(4):
+            self._set(d, None)
+        alive = sum(1 for o in self.objs.values() if o[3])
         self.__init__()
+        return alive
 
     def line(self):
         out = ["s" + hexs(x) for x in self.S]
@@ -106,8 +174,9 @@ class Ref:
         for x in self.X:
             out.append("xn" if x[0] == "n" else "x" + x[0] + hexs(list(x[1])))
         for p in self.P:
-            out.append("pn" if p is None else f"p{p}.{hexs([self.objs[p]])}")
-        return "V " + " ".join(out)
+            out.append("pn" if p is None else f"p{p}.{hexs([self.objs[p][0]])}")
+        g = ",".join(f"{i}:{hexs([o[0]])}:{o[1] if o[1] is not None else 'n'}:{o[2]}" for i, o in sorted(self.objs.items()) if o[3])
+        return "V " + " ".join(out) + " G " + (g or "-")
 
 
 def reference(hist):
@@ -117,8 +186,7 @@ def reference(hist):
     for line in hist:
         t = line.split()
         if t[0] == "end":
-            r.clear_all()
-            out.append("end live=0 bad=0")
+            out.append(f"end live={r.clear_all()} bad=0")
         elif t[0] in ("hooks", "give"):
             out.append("ok")
         elif t[0] == "prog":
@@ -154,9 +222,10 @@ def parse_obs(impl):
         for tok in parts[1].split(" "):
             f = tok.split(":")
             if len(f) == 2:
-                table[int(f[0])] = (f[1], 0, -1, [])
+                table[int(f[0])] = (f[1], 0, -1, [], None)
             elif len(f) == 5:
-                table[int(f[0])] = (f[1], int(f[2]), int(f[3]), unhex(f[4]))
+                c = f[4].split(">")
+                table[int(f[0])] = (f[1], int(f[2]), int(f[3]), unhex(c[0]), c[1] if len(c) > 1 else None)
             else:
                 return None
     tail = dict(x.split("=") for x in parts[2].split(" "))
@@ -169,60 +238,96 @@ def ref_eq(impl, ref):
         return impl == ref
     try:
         p = parse_obs(impl)
-    except (ValueError, KeyError):
+    except (ValueError, KeyError, IndexError):
         return False
     if p is None:
         return False
     hs, table, live, bad = p
-    want = ref.split(" ")[1:]
+    body, graph = ref[2:].split(" G ")
+    want = body.split(" ")
     if bad != 0:
         return False
     count = {}
     objpid = {}
-    for k, (h, w) in enumerate(zip(hs, want)):
-        if h.startswith("b"):
-            if not h[1:].isdigit():
-                return False                      # `X`, `b1!b2`: dangling / inconsistent handle
-            pid = int(h[1:])
-            count[pid] = count.get(pid, 0) + 1
-            if pid not in table or table[pid][0] != "L":
-                return False                      # handle designates a released payload
-            _, _, tag, val = table[pid]
-        elif h == "n":
-            tag, val = None, []
-        elif h.startswith("i") and "." in h:
-            tag, val = int(h[1:].split(".")[0]), unhex(h.split(".")[1])
-        else:
-            return False
-        # value semantics
-        kind = k // 4
-        if kind == 0:
-            if tag not in (None, 0) or hexs(val) != w[1:]:
-                return False
-        elif kind == 1:
-            exp = {"n": None, "i": 11, "s": 12, "l": 13}[w[1]]
-            if tag != exp or (exp is not None and hexs(val) != w[2:]):
-                return False
-        elif kind == 2:
-            exp = {"n": None, "t": 22, "e": 23}[w[1]]
-            if tag != exp or (exp is not None and hexs(val) != w[2:]):
-                return False
-        else:
-            if w == "pn":
-                if h != "n":
+
+    def designate(tok):
+        """handle token -> pid (counted) / None; raises on dangling or inconsistent handles"""
+        if tok == "n":
+            return None
+        if not (tok.startswith("b") and tok[1:].isdigit()):
+            raise ValueError(tok)                   # `X`, `b1!b2`
+        pid = int(tok[1:])
+        if pid not in table or table[pid][0] != "L":
+            raise ValueError(tok)                   # designates a released payload
+        count[pid] = count.get(pid, 0) + 1
+        return pid
+
+    try:
+        for k, (h, w) in enumerate(zip(hs, want)):
+            if h.startswith("i") and "." in h:
+                tag, val = int(h[1:].split(".")[0]), unhex(h.split(".")[1])
+                pid = None
+            else:
+                pid = designate(h)
+                tag, val = (table[pid][2], table[pid][3]) if pid is not None else (None, [])
+            kind = k // 4
+            if kind == 0:
+                if tag not in (None, 0) or hexs(val) != w[1:]:
+                    return False
+            elif kind == 1:
+                exp = {"n": None, "i": 11, "s": 12, "l": 13, "a": 14, "m": 15}[w[1]]
+                if tag != exp or (exp is not None and hexs(val) != w[2:]):
+                    return False
+            elif kind == 2:
+                exp = {"n": None, "t": 22, "e": 23}[w[1]]
+                if tag != exp or (exp is not None and hexs(val) != w[2:]):
                     return False
             else:
-                oid, v = w[1:].split(".")
-                if tag != 30 or hexs(val) != v:
+                if w == "pn":
+                    if h != "n":
+                        return False
+                else:
+                    oid = w[1:].split(".")[0]
+                    if pid is None or objpid.setdefault(oid, pid) != pid:
+                        return False                # copies of one Ptr designate different objects
+        # handles embedded in live payloads count as handles
+        emb = {}
+        for pid, e in table.items():
+            if e[0] == "L" and e[4] is not None:
+                emb[pid] = designate(e[4])
+        # the object graph: same shape, values and counters as the reference graph
+        objs = {}
+        if graph != "-":
+            for item in graph.split(","):
+                oid, v, nxt, rc = item.split(":")
+                objs[oid] = (v, nxt, int(rc))
+        todo = list(objpid)
+        while todo:
+            oid = todo.pop()
+            pid = objpid[oid]
+            v, nxt, rc = objs[oid]
+            if table[pid][2] != 30 or hexs(table[pid][3]) != v or table[pid][1] != rc:
+                return False
+            if nxt == "n":
+                if emb.get(pid) is not None:
                     return False
-                pid = int(h[1:])
-                if objpid.setdefault(oid, pid) != pid:
-                    return False                  # copies of one Ptr designate different objects
-    if len(set(objpid.values())) != len(objpid):
-        return False                              # distinct objects share a payload
+            else:
+                if emb.get(pid) is None:
+                    return False
+                if nxt in objpid:
+                    if objpid[nxt] != emb[pid]:
+                        return False
+                else:
+                    objpid[nxt] = emb[pid]
+                    todo.append(nxt)
+        if len(set(objpid.values())) != len(objpid):
+            return False                            # distinct objects share a payload
+    except ValueError:
+        return False
     # ledger: counter = number of handles, released exactly once after the last handle, no leak
     nlive = 0
-    for pid, (state, ref_, tag, val) in table.items():
+    for pid, e in table.items():
+        state, ref_ = e[0], e[1]
         if state == "L":
             nlive += 1
             if ref_ != count.get(pid, 0) or ref_ < 1:
@@ -231,7 +336,7 @@ def ref_eq(impl, ref):
             if pid in count:
                 return False
         else:
-            return False                          # released more than once
+            return False                            # released more than once
     return live == nlive
 
 
@@ -241,21 +346,26 @@ reference.eq = ref_eq
 # ---- generators -------------------------------------------------------------------------------------
 KINDS = "svxp"
 OPS = {
-    "s": ["snew", "slit", "scopy", "sassign", "sclear", "sappend", "sreserve", "sdel", "sset"],
-    "v": ["vcopy", "vassign", "vclear", "vseti", "vsets", "vapp", "vpush", "vswap", "vsetl"],
+    "s": ["snew", "slit", "scopy", "sassign", "sclear", "sappend", "sreserve", "sdel", "sset",
+          "sprepend", "sresize", "sreplace", "slower", "schar", "sprintf"],
+    "v": ["vcopy", "vassign", "vclear", "vseti", "vsets", "vapp", "vpush", "vswap", "vsetl", "vpusha", "vseta", "vputm", "vsetm"],
     "x": ["xcopy", "xassign", "xclear", "xsets", "xelem"],
-    "p": ["pnew", "pcopy", "passign", "pclear", "pswap"],
+    "p": ["pnew", "pcopy", "passign", "pclear", "pswap", "praw", "pctor", "plink", "pnext", "pnextof"],
 }
+ST_ONLY = {"sprintf", "sresize", "plink", "pnext", "pnextof"}   # not in thread programs (see docs/rc.md)
 W = {
-    "s": [3, 1, 4, 4, 2, 5, 2, 2, 2], "v": [4, 4, 2, 2, 3, 4, 3, 2, 2], "x": [4, 4, 2, 3, 4], "p": [3, 4, 4, 2, 3],
+    "s": [3, 1, 4, 4, 2, 5, 2, 2, 2, 2, 2, 2, 2, 2, 1], "v": [4, 4, 2, 2, 3, 4, 3, 2, 2, 3, 1, 3, 1], "x": [4, 4, 2, 3, 4],
+    "p": [3, 4, 4, 2, 3, 2, 2, 4, 3, 2],
 }
-TWO = {"scopy", "sassign", "vcopy", "vassign", "vswap", "xcopy", "xassign", "pcopy", "passign", "pswap"}
-ONE = {"sclear", "sdel", "vclear", "xclear", "pclear"}
-NUM = {"sreserve", "vseti", "vpush", "vsetl", "pnew"}
+TWO = {"scopy", "sassign", "vcopy", "vassign", "vswap", "xcopy", "xassign", "pcopy", "passign", "pswap", "praw", "pctor",
+       "plink", "pnextof"}
+ONE = {"sclear", "sdel", "vclear", "xclear", "pclear", "slower", "schar", "pnext"}
+NUM = {"sreserve", "vseti", "vpush", "vsetl", "pnew", "sresize", "sprintf", "vpusha", "vseta"}
+NUM2 = {"sreplace", "vputm", "vsetm"}
 
 
 def rbytes(rng, n):
-    return hexs([rng.choice([0x61, 0x62, 0x63, 0x7a, 0x30, 0x20, 0xe4]) for _ in range(n)])
+    return hexs([rng.choice([0x61, 0x62, 0x63, 0x7a, 0x30, 0x20, 0xe4, 0x41, 0x5a]) for _ in range(n)])
 
 
 def cur_len(r, kind, d):
@@ -267,29 +377,42 @@ def cur_len(r, kind, d):
     return len(v[1]) if len(v) > 1 and isinstance(v[1], tuple) else 0
 
 
-def gen_op(rng, r, kind, handles):
-    """one op of `kind` over the given handle indices, keeping payload strings short"""
-    for _ in range(20):
+def gen_op(rng, r, kind, handles, mt=False):
+    """one op of `kind` over the given handle indices, keeping payload strings short and the call well-typed
+    (a rejected candidate is not emitted: Ref.apply returns False for it)"""
+    for _ in range(40):
         op = rng.choices(OPS[kind], W[kind])[0]
+        if mt and op in ST_ONLY:
+            continue
         d = rng.choice(handles)
+        grow = 0
         if op in TWO:
             line = f"{op} {d} {rng.choice(handles)}"
         elif op in ONE:
             line = f"{op} {d}"
+        elif op == "sresize":
+            line = f"{op} {d} {rng.randrange(len(r.S[d]) + 1)}"
+        elif op == "sreserve":
+            line = f"{op} {d} {rng.choice([0, 1, 3, 4, 7, 8, 20])}"
         elif op in NUM:
-            line = f"{op} {d} {rng.choice([0, 1, 2, 7, 9, 16, 40, 255]) if op != 'sreserve' else rng.choice([0, 1, 3, 4, 7, 8, 20])}"
+            grow = 1 if op in ("vpush", "vpusha") else 0
+            line = f"{op} {d} {rng.choice([0, 1, 2, 7, 9, 16, 40, 255])}"
+        elif op in NUM2:
+            grow = 2 if op == "vputm" else 0
+            a, b = (rng.choice([0x61, 0x62, 0x41, 0x7a]), rng.choice([0x61, 0x62, 0x58])) if op == "sreplace" else \
+                   (rng.choice([0x61, 0x62, 0x63]), rng.choice([0, 1, 7, 200]))
+            line = f"{op} {d} {a} {b}"
         else:
             n = rng.choice([0, 1, 1, 2, 3])
-            if op in ("sappend", "vapp") and cur_len(r, kind, d) + n > MAXLEN:
-                continue
-            if op == "vpush" and cur_len(r, kind, d) >= MAXLEN:
-                continue
+            grow = n if op in ("sappend", "vapp", "sprepend") else 0
             line = f"{op} {d} {rbytes(rng, n)}"
-        if op == "vpush" and cur_len(r, kind, d) >= MAXLEN:
+        if grow and cur_len(r, kind, d) + grow > MAXLEN:
             continue
-        r.apply(line.split())
-        return line
-    return f"{kind}clear {d}" if kind != "s" else f"sclear {d}"
+        if r.apply(line.split()):
+            return line
+    line = f"{kind}clear {d}"
+    r.apply(line.split())
+    return line
 
 
 def gen_history(rng, length):
@@ -305,13 +428,16 @@ def gen_history(rng, length):
 
 SMALL = {
     "s": ["snew 0 6162", "slit 0 61", "scopy 1 0", "scopy 0 1", "sassign 1 0", "sassign 0 1", "sassign 0 0", "sclear 0", "sclear 1",
-          "sappend 0 63", "sappend 1 6465", "sreserve 0 8", "sdel 0", "sdel 1", "sset 0 67"],
+          "sappend 0 63", "sappend 1 6465", "sreserve 0 8", "sdel 0", "sdel 1", "sset 0 67",
+          "sprepend 0 41", "sresize 0 1", "sreplace 0 97 88", "slower 0", "schar 0", "sprintf 1 7"],
     "v": ["vsets 0 61", "vseti 0 7", "vcopy 1 0", "vassign 1 0", "vassign 0 1", "vassign 0 0", "vclear 0", "vclear 1", "vapp 0 62",
-          "vapp 1 63", "vpush 0 1", "vpush 1 2", "vswap 0 1", "vswap 0 0", "vsets 1 -", "vsetl 0 3"],
+          "vapp 1 63", "vpush 0 1", "vpush 1 2", "vswap 0 1", "vswap 0 0", "vsets 1 -", "vsetl 0 3",
+          "vpusha 0 4", "vpusha 1 5", "vseta 0 6", "vputm 0 97 1", "vputm 1 97 2", "vsetm 0 98 3"],
     "x": ["xsets 0 61", "xelem 0 62", "xcopy 1 0", "xassign 1 0", "xassign 0 1", "xassign 0 0", "xclear 0", "xclear 1", "xsets 1 63",
           "xelem 1 64", "xelem 1 -"],
     "p": ["pnew 0 1", "pnew 1 2", "pcopy 1 0", "pcopy 2 0", "passign 1 0", "passign 0 1", "passign 0 0", "pclear 0", "pclear 1",
-          "pswap 0 1", "pswap 0 2", "pswap 0 0"],
+          "pswap 0 1", "pswap 0 0", "pnew 2 3", "passign 0 2", "pctor 1 2", "praw 0 2", "plink 0 1", "plink 1 0", "plink 0 0",
+          "plink 0 2", "pnext 0", "pnext 1", "pnextof 1 0", "pclear 2"],
 }
 
 
@@ -341,22 +467,23 @@ def gen_mt_scenario(rng, hooks, nt=None, nkinds=None):
     own = {t: [] for t in range(1, nt + 1)}       # thread -> [(kind, handle)]
     for kind in kinds:
         seed_ops = {"s": ["snew 0 6162", "snew 0 61626364", "snew 0 -", "slit 0 6162"], "v": ["vsets 0 6162", "vpush 0 5", "vseti 0 7"],
-                    "x": ["xsets 0 6162", "xelem 0 61"], "p": ["pnew 0 3"]}[kind]
+                    "x": ["xsets 0 6162", "xelem 0 61"], "p": ["pnew 3 3"]}[kind]
         first = rng.choice(seed_ops)
         h.append(first)
         r.apply(first.split())
         cp = kind + "copy"
         asg = kind + "assign"
-        for i in range(1, 4):
+        src = int(first.split()[1])
+        done = [src]
+        for i in [x for x in range(4) if x != src]:
             c = rng.random()
-            if c < 0.5:
-                line = f"{cp} {i} 0"
-                r.apply(line.split())
-            elif c < 0.8:
-                line = f"{asg} {i} {rng.randrange(i)}"
-                r.apply(line.split())
+            if c < 0.5 and r.apply(f"{cp} {i} {src}".split()):
+                line = f"{cp} {i} {src}"
+            elif c < 0.8 and r.apply(f"{asg} {i} {done[-1]}".split()):
+                line = f"{asg} {i} {done[-1]}"
             else:
-                line = gen_op(rng, r, kind, [i])
+                line = gen_op(rng, r, kind, [i], mt=True)
+            done.append(i)
             h.append(line)
         hl = [0, 1, 2, 3]
         rng.shuffle(hl)
@@ -373,7 +500,7 @@ def gen_mt_scenario(rng, hooks, nt=None, nkinds=None):
         if not own[t]:
             continue
         kind = rng.choice(sorted(set(k for k, _ in own[t])))
-        progs[t].append(gen_op(rng, r, kind, [v for k, v in own[t] if k == kind]))
+        progs[t].append(gen_op(rng, r, kind, [v for k, v in own[t] if k == kind], mt=True))
     for t in sorted(progs):
         for o in progs[t]:
             h.append(f"prog {t} {o}")
